@@ -41,6 +41,35 @@ func (o goMapObject) toValue(rt *runtime, value Value) reflect.Value {
 	return reflectValue
 }
 
+// toKey converts a property name to a key of the map; ok is false when the
+// name can't be a key (it doesn't parse as the key's kind, or the key type
+// has no textual form at all, like a struct).
+func (o goMapObject) toKey(name string) (key reflect.Value, ok bool) {
+	kind := o.keyType.Kind()
+	if kind == reflect.Interface {
+		kind = reflect.String // any key: the name itself
+	}
+	switch kind {
+	case reflect.Bool, reflect.String, reflect.Float32, reflect.Float64,
+		reflect.Int, reflect.Int8, reflect.Int16, reflect.Int32, reflect.Int64,
+		reflect.Uint, reflect.Uint8, reflect.Uint16, reflect.Uint32, reflect.Uint64:
+	default:
+		return reflect.Value{}, false // stringToReflectValue panics for the other kinds
+	}
+	key, err := stringToReflectValue(name, kind)
+	if err != nil {
+		return reflect.Value{}, false
+	}
+	if key.Type().AssignableTo(o.keyType) {
+		return key, true
+	}
+	if key.Type().ConvertibleTo(o.keyType) {
+		// A named key type (type K string).
+		return key.Convert(o.keyType), true
+	}
+	return reflect.Value{}, false
+}
+
 func goMapGetOwnProperty(obj *object, name string) *property {
 	goObj := obj.value.(*goMapObject)
 
@@ -52,8 +81,8 @@ func goMapGetOwnProperty(obj *object, name string) *property {
 	// being possible to represent as a string, 2) being possible to reconstruct
 	// from a string, and 3) having a meaningful failure case in this context
 	// other than "key does not exist"
-	key, err := stringToReflectValue(name, goObj.keyType.Kind())
-	if err != nil {
+	key, ok := goObj.toKey(name)
+	if !ok {
 		return nil
 	}
 
@@ -77,7 +106,13 @@ func goMapEnumerate(obj *object, all bool, each func(string) bool) {
 	goObj := obj.value.(*goMapObject)
 	keys := goObj.value.MapKeys()
 	for _, key := range keys {
-		if !each(toValue(key).String()) {
+		name := toValue(key).String()
+		if lookup, ok := goObj.toKey(name); !ok || !goObj.value.MapIndex(lookup).IsValid() {
+			// A key that can't be found again through its name (NaN, a struct)
+			// is not a property.
+			continue
+		}
+		if !each(name) {
 			return
 		}
 	}
@@ -94,8 +129,8 @@ func goMapDefineOwnProperty(obj *object, name string, descriptor property, throw
 	if !ok || goObj.value.IsNil() {
 		return obj.runtime.typeErrorResult(throw)
 	}
-	key, err := stringToReflectValue(name, goObj.keyType.Kind())
-	if err != nil {
+	key, ok := goObj.toKey(name)
+	if !ok {
 		// The name can't be a key of this map.
 		return obj.runtime.typeErrorResult(throw)
 	}
@@ -105,8 +140,8 @@ func goMapDefineOwnProperty(obj *object, name string, descriptor property, throw
 
 func goMapDelete(obj *object, name string, throw bool) bool {
 	goObj := obj.value.(*goMapObject)
-	key, err := stringToReflectValue(name, goObj.keyType.Kind())
-	if err != nil || goObj.value.IsNil() {
+	key, ok := goObj.toKey(name)
+	if !ok || goObj.value.IsNil() {
 		// The name can't be a key of this map, nothing to delete.
 		return true
 	}
